@@ -367,6 +367,10 @@ class G:
         # always end with a few dispatches so that obligations are checked
         for _ in range(2):
             self.steps.append({"op": "dispatch"})
+        for d in self.srcs:
+            # some sources go through `impl EventSource for Box<T>`
+            if not d.get("held") and "dupof" not in d and r.random() < 0.2:
+                d["boxed"] = 1
         scn = {"id": sid, "tick_us": 2000, "sources": self.srcs, "progs": self.progs, "steps": self.steps}
         if self.cls in ("chans", "streams", "mix", "ready") and r.random() < 0.5:
             scn["limit"] = r.choice([1, 2, 3])      # per-dispatch batch limit of channels (verif hook)
@@ -927,7 +931,8 @@ def pat_dupfd(rnd, sid):
         steps += [{"op": "wr", "s": 1, "c": 0}, {"op": "dispatch"}]
     steps.append({"op": "remove", "ts": 1})
     order = r.choice(["late", "late", "early"])
-    release = r.choice([[{"op": "drop_held", "s": 1}], [{"op": "into_inner", "s": 1}, {"op": "drop_pending", "s": 1}]])
+    release = r.choice([[{"op": "drop_held", "s": 1}], [{"op": "into_inner", "s": 1}, {"op": "drop_pending", "s": 1}],
+                        [{"op": "into_inner", "s": 1}, {"op": "unwrap", "s": 1}]])
     if order == "early":
         steps += release
     steps.append({"op": "insert", "s": 2})
